@@ -5,6 +5,7 @@ classes, plus the property oracle  Σ_σ p(σ)·apply(σ) = tr(ρ̂ O)  evaluate
 explicit Kronecker-product operators (numpy, independent of model and library)."""
 import numpy as np
 
+from . import argforms_a as af
 from . import qc
 from .common import bits, unbits
 from .layouts import LAYOUTS, make_batch, outside_untouched, same_values
@@ -49,7 +50,7 @@ ROTATED_SIGN = -1.0
 RULE = ("case = (state kind pos/cplx/dens, n<=5, h, [a], parameter scale in {0.3,1,2,3}, all weights/biases of both networks = "
         "scale*N(0,1) (all non-zero), batch, memory layout of the batch: contiguous / strided row or column view of a larger buffer / "
         "transposed); batches: the full basis in index order (the exact-average oracle runs on it) and random "
-        "batches with repeated rows; every built-in observable with absolute in {False,True}, c = 0..n+1, both boundary conditions; "
+        "batches with repeated rows; every built-in observable with absolute in {False,True}, c = 0..n+1 applied, verdicts (points, oracles) only for the distances of the property's quantifier c = 1..n (c = 0, c > n: informational counters), both boundary conditions; "
         "non-trivial iff n >= 2 and all biases non-zero and (kind == pos or the phase network is non-zero); distinct by hash of the case; "
         "history cases: every observable object created once and applied along a sequence (sample tensor overwritten in place, state "
         "re-parametrised in place, other batch length, longer / shorter chains, other state class, back to the start); "
@@ -57,7 +58,21 @@ RULE = ("case = (state kind pos/cplx/dens, n<=5, h, [a], parameter scale in {0.3
         "rotate_psi / rotate_psi_inner_prod (wavefunctions) and rotate_rho_probs / rotate_rho (density matrices) with the default dictionary; "
         "every `absolute` / `periodic_bcs` argument (constructor, keyword or positional, and reassigned attribute) is one of {bool singleton, int "
         "1/0, numpy.bool_, result of a numpy comparison, 0-dim numpy bool array, 0-dim torch.bool tensor} drawn from a per-case seeded stream "
-        "(`fseed`); states are constructed with gpu=<falsy object of one of these forms>")
+        "(`fseed`); states are constructed with gpu=<falsy object of one of these forms>; "
+        "argument forms (round 5, per-case seeded stream `aseed`, harness/argforms_a.py): the interaction distance `c` (constructor, keyword or positional, "
+        "and reassigned attribute) is a Python int / np.int64 / np.int32 / np.intp / 0-d integer ndarray / 0-d integer tensor (numpy UNSIGNED scalars "
+        "left out: `-self.c` wraps, finding candidate proposed/F_C08_unsigned_c), the constructor sizes num_visible / num_hidden / num_aux of the states and RBM modules "
+        "additionally np.uint8 (keyword or positional; oracle: constructed architecture == requested), the normalisation handed to probability is the "
+        "0-d tensor normalization() returned / a float / a np.float64 (keyword or positional), `expand` of rho(space, space) and `include_extras` of "
+        "rotate_psi_inner_prod / rotate_rho_probs are flag objects (keyword or positional); a case without `aseed` replays with plain ints / bools by keyword")
+
+# forms of the interaction distance `c` the CLEAN code handles (probed: keyword, positional, reassigned attribute; c = 0..n+2, both boundary
+# conditions): everything in qc.INT_FORMS except numpy UNSIGNED scalars.  `NeighbourInteraction(c=np.uint8(k))`: the open chain computes
+# `samples[:, : -self.c]` with -uint8(k) = 256 - k (all columns) and the periodic chain indexes with a list of np.uint8, which torch reads as a
+# byte MASK: RuntimeError for most (L, c), but a silently WRONG value when the shapes happen to broadcast (open: c = L - 1; periodic: L <= 2).
+# Recorded as finding candidate proposed/F_C08_unsigned_c.{md,diff}; add "np.uint8" here once `c = int(self.c)` is in apply.
+C_FORMS = tuple(f for f in qc.INT_FORMS if f != "np.uint8")
+Z_FORMS = ("tensor", "float", "np.float64")
 
 I2 = np.eye(2, dtype=complex)
 PX = np.array([[0, 1], [1, 0]], dtype=complex)
@@ -87,14 +102,63 @@ def op_neighbour(n, c, periodic):
     return tot / n
 
 
-def build_state(kind, n, h, a, am, ph, gpuf=None):
-    """`gpuf`: flag form of the (falsy) object handed as `gpu=` to the constructors (None: the singleton False)"""
+def build_state(kind, n, h, a, am, ph, gpuf=None, A=None):
+    """`gpuf`: flag form of the (falsy) object handed as `gpu=` to the constructors (None: the singleton False);
+    `A`: the case's argument-form stream (argforms.Args): every constructor size (state and RBM module) is handed over as the next integer
+    form of the stream, keyword or positional; `gpu` stays the object derived from `gpuf` (a seeded stream without `gpuf` draws a falsy
+    flag object itself).  A = None: plain ints by keyword (the calls made before round 5)."""
     gpu = qc.flag_value(qc.flag_desc(gpuf, False))
+    if A is not None:
+        g = None if (gpuf is None and A.aseed is not None) else gpu
+        if kind == "pos":
+            return af.make_positive(A, n, h, am, gpu=g)
+        if kind == "cplx":
+            return af.make_complex(A, n, h, am, ph, gpu=g)
+        return af.make_density(A, n, h, a, am, ph, gpu=g)
     if kind == "pos":
         return qc.make_positive(n, h, am, gpu=gpu)
     if kind == "cplx":
         return qc.make_complex(n, h, am, ph, gpu=gpu)
     return qc.make_density(n, h, a, am, ph, gpu=gpu)
+
+
+def want_sizes(kind, n, h, a):
+    return (n, h, a) if kind == "dens" else (n, h)
+
+
+CTOR_THEOREM = "C08_pure_states / C08_mixed_states (stated for the state of the architecture the caller asked for)"
+
+
+def given_Z(A, st, space_t, Zt):
+    """probability(space, Z) with the normalisation as the object the caller has in hand (the 0-d tensor normalization() returned, a float,
+    a np.float64), keyword or positional; unseeded stream: the float, positionally (the call made before round 5) -> (tensor, form)"""
+    Z = float(Zt)
+    if A is None or A.aseed is None:
+        return st.probability(space_t, Z), "float"
+    zform = A.choice(Z_FORMS)
+    Zo = {"tensor": Zt, "float": Z, "np.float64": np.float64(Z)}[zform]
+    return (st.probability(space_t, Z=Zo) if A.coin(0.5) else st.probability(space_t, Zo)), zform
+
+
+class FormError(Exception):
+    """a call returned something of another shape / type than its documentation promises for the truth value of the flag it was given"""
+
+
+def with_extras(A, fn, st, basis, space):
+    """rotate_psi_inner_prod / rotate_rho_probs with `include_extras` = a flag object of the case's stream (keyword or positional): a falsy
+    object must give the plain tensor, a truthy one the triple (result, terms, expanded states) whose first entry is that tensor"""
+    if A is None or A.aseed is None:
+        return fn(st, basis, space)
+    want = A.coin(0.5)
+    flag = A.b(want)
+    r = fn(st, basis, space, None, None, flag) if A.coin() else fn(st, basis, space, include_extras=flag)
+    if want:
+        if not (isinstance(r, tuple) and len(r) == 3 and isinstance(r[0], torch.Tensor)):
+            raise FormError(f"include_extras=<true object {type(flag).__name__}>: no triple returned")
+        return r[0]
+    if not isinstance(r, torch.Tensor):
+        raise FormError(f"include_extras=<false object {type(flag).__name__}>: {type(r).__name__} returned")
+    return r
 
 
 def _fd(d):
@@ -108,13 +172,19 @@ def make_pauli(cls, fl, ab):
     return (cls(obj) if d["pos"] else cls(absolute=obj)), d
 
 
-def make_neighbour(cls, fl, per, c, form=None):
-    """NeighbourInteraction with `periodic_bcs` = the truth value `per` as an object of the given / next form (keyword or positional)"""
+def make_neighbour(cls, fl, per, c, form=None, A=None):
+    """NeighbourInteraction with `periodic_bcs` = the truth value `per` as an object of the given / next form (keyword or positional) and the
+    distance `c` as the next integer form of the stream `A` (C_FORMS; None: the Python int)"""
     obj, d = fl(per)
     if form is not None:   # one form per truth value and case (the model takes one descriptor pair for all distances); position still varies
         d = dict(d, form=form)
         obj = qc.flag_value(d)
-    return (cls(obj, c) if d["pos"] else cls(periodic_bcs=obj, c=c)), d
+    if A is None:
+        return (cls(obj, c) if d["pos"] else cls(periodic_bcs=obj, c=c)), d
+    co = A.i(c, C_FORMS)
+    if d["pos"]:
+        return (cls(obj, c=co) if A.coin() else cls(obj, co)), d
+    return (cls(c=co, periodic_bcs=obj) if A.coin() else cls(periodic_bcs=obj, c=co)), d
 
 
 def state_req(kind, n, h, a, am, ph):
@@ -126,12 +196,20 @@ def state_req(kind, n, h, a, am, ph):
     return req
 
 
-def rho_hat(st, kind, n):
+def rho_hat(st, kind, n, A=None):
     """normalised density matrix of the implementation's state in the computational basis (numpy complex),
-    from psi(space) / rho(space, space) — independent of the importance-sampling path"""
+    from psi(space) / rho(space, space) — independent of the importance-sampling path.
+    `A`: argument-form stream; seeded: `expand` of rho is handed over as a TRUTHY flag object (keyword or positional) and None is returned
+    if the result is not the full 2 x N x N matrix the documentation promises for a true `expand`"""
     space = torch.tensor(qc.all_states(n), dtype=torch.double)
     if kind == "dens":
-        r = st.rho(space, space).detach().numpy()
+        if A is None or A.aseed is None:
+            r = st.rho(space, space).detach().numpy()
+        else:
+            flag = A.b(True)
+            r = (st.rho(space, space, flag) if A.coin(0.5) else st.rho(space, space, expand=flag)).detach().numpy()
+            if r.shape != (2, len(space), len(space)):
+                return None
         R = r[0] + 1j * r[1]
     else:
         p = st.psi(space).detach().numpy()
@@ -163,18 +241,25 @@ def cmp_vals(ctx, name, level, impl, model, case, theorem, sig):
         ctx.point(name, level, impl, m, case, scale=max(sc, 1.0), theorem=theorem, sig=sig)
 
 
-def one_case(ctx, kind, n, h, a, scale, am, ph, samples, full, layout="contig", fseed=None, gpuf=None):
+def one_case(ctx, kind, n, h, a, scale, am, ph, samples, full, layout="contig", fseed=None, gpuf=None, aseed=None):
     """`fseed`: seed of the case's flag stream (qc.Flags): every `absolute` / `periodic_bcs` argument is handed over as a bool singleton / int /
     numpy bool / result of a numpy comparison / 0-dim bool array / 0-dim bool tensor, by keyword or positionally (None: singletons by keyword,
-    cases stored before round 4); `gpuf`: form of the falsy object given as `gpu=`"""
+    cases stored before round 4); `gpuf`: form of the falsy object given as `gpu=`; `aseed`: seed of the case's argument-form stream (argforms.Args):
+    constructor sizes, the distance `c`, the normalisation given to probability, `expand` / `include_extras` (None: plain ints / bools by keyword,
+    cases stored before round 5)"""
     from qucumber.observables import NeighbourInteraction, SigmaX, SigmaY, SigmaZ
 
     case = {"kind": kind, "n": n, "h": h, "a": a, "scale": scale, "am": am, "ph": ph, "samples": samples, "full": full, "layout": layout,
             "fseed": fseed, "gpuf": gpuf}
+    if aseed is not None:
+        case["aseed"] = aseed
     ctx.current_case = case
     ctx.count(f"layout={layout}")
     fl = qc.Flags(fseed)
-    st = build_state(kind, n, h, a, am, ph, gpuf)
+    A = af.Args(aseed)
+    st = build_state(kind, n, h, a, am, ph, gpuf, A=A)
+    if not af.check_sizes(ctx, st, want_sizes(kind, n, h, a), case, A, f"{kind}/ctor-sizes", CTOR_THEOREM):
+        return
     B = len(samples)
     cs = list(range(0, n + 2))
     nz = lambda p: all(x != 0 for x in p["b"]) and all(x != 0 for x in p["c"])  # noqa: E731
@@ -189,7 +274,7 @@ def one_case(ctx, kind, n, h, a, scale, am, ph, samples, full, layout="contig", 
         return torch.tensor(samples, dtype=torch.double).reshape(B, n)
 
     # ---------------- implementation (the batch in the case's memory layout: contiguous / strided view / transposed)
-    impl, fdesc = {}, {}
+    impl, fdesc, cform = {}, {}, {}
     for nm, cls in (("sigmaX", SigmaX), ("sigmaY", SigmaY), ("sigmaZ", SigmaZ)):
         for ab in (False, True):
             t, backing = make_batch(samples, n, layout)
@@ -200,10 +285,12 @@ def one_case(ctx, kind, n, h, a, scale, am, ph, samples, full, layout="contig", 
     for c in cs:
         for per in (False, True):
             t, backing = make_batch(samples, n, layout)
-            obs, _ = make_neighbour(NeighbourInteraction, fl, per, c, form=fdesc[("nb", per)]["form"])
+            obs, _ = make_neighbour(NeighbourInteraction, fl, per, c, form=fdesc[("nb", per)]["form"], A=A)
+            cform[(per, c)] = A.ints.used[-1]["form"]
             impl[("nb", per, c)] = impl_apply(obs, st, t, backing, layout) + (t.numpy().astype(int).tolist(),)
     for d in fl.used:
         ctx.count(f"flag given as {d['form']}:{'positional' if d['pos'] else 'keyword'}")
+    A.count_into(ctx)
     flags_req = {nm: [_fd(fdesc[(nm, False)]), _fd(fdesc[(nm, True)])] for nm in ("sigmaX", "sigmaY", "sigmaZ")}
     flags_req["periodic"] = [_fd(fdesc[("nb", False)]), _fd(fdesc[("nb", True)])]
     given = lambda key: fdesc[(key[0], key[1])]["form"]  # noqa: E731
@@ -230,6 +317,11 @@ def one_case(ctx, kind, n, h, a, scale, am, ph, samples, full, layout="contig", 
 
     # ---------------- every apply returns one float64 per sample and does not touch the sample tensor
     for key, (vals, shape_ok, unchanged, _after) in impl.items():
+        if key[0] == "nb" and not 1 <= key[2] <= n:
+            # interaction distances outside the property's quantifier (c = 1..n): c = 0 and c = n + 1 are still APPLIED (a crash of the harness
+            # or of a later call would show), but nothing about their outcome is constrained: informational counters only
+            ctx.count(f"neighbour c outside 1..n (informational): {'raises' if isinstance(vals, dict) else 'returns values'}")
+            continue
         nm = key[0] if key[0] != "nb" else f"neighbour(periodic={key[1]},c={key[2]})"
         sub = {**case, "observable": nm, "absolute": key[1] if key[0] != "nb" else None, "flag_given_as": given(key)}
         ctx.oracle("apply leaves the sample tensor unchanged (bytes)", bool(unchanged), sub, sig=f"{kind}/{key[0]}/no-mutation",
@@ -258,10 +350,18 @@ def one_case(ctx, kind, n, h, a, scale, am, ph, samples, full, layout="contig", 
                               sig=f"{kind}/{nm}/after")
         for ci, c in enumerate(cs):
             for per, mk in ((False, "open"), (True, "periodic")):
-                # c = 0 is outside the property's quantifier (c >= 1): auxiliary there
-                lvl = "property" if c >= 1 else "aux"
+                # c = 0 and c > n are outside the property's quantifier (c = 1..n): no verdict of any level there (a rewrite that returns
+                # another value, or raises, for a distance no chain of this length has is as good); whether the outcome is the modelled one
+                # is counted
+                if not 1 <= c <= n:
+                    iv, mv = impl[("nb", per, c)][0], model[mk][ci]
+                    same = (isinstance(iv, dict) and isinstance(mv, dict)) or (not isinstance(iv, dict) and not isinstance(mv, dict)
+                                                                                and np.allclose(iv, unbits(mv) if len(mv) else np.zeros(0), rtol=1e-9, atol=1e-12))
+                    ctx.count("neighbour c outside 1..n (informational): " + ("as modelled" if same else "differs from the model"))
+                    continue
+                lvl = "property"
                 cmp_vals(ctx, f"NeighbourInteraction(periodic={per} given as {fdesc[('nb', per)]['form']},c={c}).apply", lvl, impl[("nb", per, c)][0], model[mk][ci],
-                         {**case, "observable": "neighbour", "periodic": per, "c": c, "flag_given_as": fdesc[("nb", per)]},
+                         {**case, "observable": "neighbour", "periodic": per, "c": c, "c_given_as": cform[(per, c)], "flag_given_as": fdesc[("nb", per)]},
                          THEOREMS[mk] + "; C08_flag_periodic", f"{kind}/neighbour/{mk}")
         if imp_err is None:
             sc = float(np.max(np.abs(i_numer))) + 1e-300
@@ -278,11 +378,21 @@ def one_case(ctx, kind, n, h, a, scale, am, ph, samples, full, layout="contig", 
     # ---------------- property oracle on the implementation (full basis only): Σ p·apply = tr(ρ̂ O)
     if full:
         space_t = fresh()
-        Z = float(st.normalization(space_t))
-        p = st.probability(space_t, Z).detach().numpy()
-        R = rho_hat(st, kind, n)
-        ctx.oracle("probability/Z is the diagonal of the normalised state", bool(np.allclose(p, np.real(np.diag(R)), rtol=1e-8, atol=1e-12)),
-                   case, sig=f"{kind}/born")
+        Zt = st.normalization(space_t)
+        Z = float(Zt)
+        pt, zform = given_Z(A, st, space_t, Zt)
+        p = pt.detach().numpy()
+        R = rho_hat(st, kind, n, A)
+        given_as = A.used()
+        A.count_into(ctx)
+        if R is None:
+            ctx.oracle("rho(space, space, expand=<true object>) is the full matrix", False, case, detail={"given_as": given_as}, sig=f"{kind}/rho-expand-form",
+                       theorem=THEOREMS["sigmaX"])
+            return
+        ctx.oracle("probability/Z is the diagonal of the normalised state", bool(p.shape == (len(samples),) and np.allclose(p, np.real(np.diag(R)), rtol=1e-8, atol=1e-12)),
+                   case, detail={"Z_given_as": zform}, sig=f"{kind}/born")
+        if p.shape != (len(samples),):
+            return
 
         def check(name, vals, O, sig, theorem):
             if isinstance(vals, dict):
@@ -299,7 +409,7 @@ def one_case(ctx, kind, n, h, a, scale, am, ph, samples, full, layout="contig", 
         check("SigmaY", impl[("sigmaY", False)][0], op_magnet(PY, n), f"{kind}/sigmaY/unbiased", THEOREMS["sigmaY"])
         check("SigmaZ", impl[("sigmaZ", False)][0], op_magnet(PZ, n), f"{kind}/sigmaZ/unbiased", THEOREMS["sigmaZ"])
         for c in cs:
-            if c < 1:
+            if not 1 <= c <= n:
                 continue
             for per, mk in ((False, "open"), (True, "periodic")):
                 check(f"NeighbourInteraction(periodic={per},c={c})", impl[("nb", per, c)][0], op_neighbour(n, c, per),
@@ -322,16 +432,17 @@ def one_case(ctx, kind, n, h, a, scale, am, ph, samples, full, layout="contig", 
             dists, raised = {}, None
             try:
                 if kind == "dens":
-                    dists["rotate_rho_probs"] = qu.rotate_rho_probs(st, basis, fresh()).detach().numpy() / Z
+                    dists["rotate_rho_probs"] = with_extras(A, qu.rotate_rho_probs, st, basis, fresh()).detach().numpy() / Z
                     r = qu.rotate_rho(st, basis, fresh()).detach().numpy()
                     dists["rotate_rho"] = np.real(np.diag(r[0] + 1j * r[1])) / Z
                 else:
                     a = qu.rotate_psi(st, basis, fresh()).detach().numpy()
                     dists["rotate_psi"] = (a[0] ** 2 + a[1] ** 2) / Z
-                    a = qu.rotate_psi_inner_prod(st, basis, fresh()).detach().numpy()
+                    a = with_extras(A, qu.rotate_psi_inner_prod, st, basis, fresh()).detach().numpy()
                     dists["rotate_psi_inner_prod"] = (a[0] ** 2 + a[1] ** 2) / Z
             except Exception as e:  # noqa: BLE001
-                raised = type(e).__name__
+                raised = type(e).__name__ + (": " + str(e) if isinstance(e, FormError) else "")
+            A.count_into(ctx)
             if raised is not None:
                 ctx.oracle(f"rotated-basis Born distribution in basis {P}^n must not raise", False, sub, detail={"error": raised},
                            sig=f"{kind}/{nm}/rotated-basis-sign", theorem=THEOREMS["rotated"])
@@ -367,11 +478,11 @@ def gen_cases(ctx, thorough):
                 else:
                     am = qc.rand_rbm_params(rng, n, h, scale)
                     ph = qc.rand_rbm_params(rng, n, h, scale) if kind == "cplx" else None
-                yield kind, n, h, a, scale, am, ph, qc.all_states(n), True, rng.choice(LAYOUTS), rng.randrange(2 ** 31), qc.flag_form(rng, plain=0.4)
+                yield kind, n, h, a, scale, am, ph, qc.all_states(n), True, rng.choice(LAYOUTS), rng.randrange(2 ** 31), qc.flag_form(rng, plain=0.4), af.draw_aseed(rng)
                 B = rng.randrange(1, 8)
                 base = [[rng.randrange(2) for _ in range(n)] for _ in range(max(1, B - 2))]
                 batch = [list(rng.choice(base)) for _ in range(B)]  # rows repeat
-                yield kind, n, h, a, scale, am, ph, batch, False, rng.choice(LAYOUTS), rng.randrange(2 ** 31), qc.flag_form(rng, plain=0.4)
+                yield kind, n, h, a, scale, am, ph, batch, False, rng.choice(LAYOUTS), rng.randrange(2 ** 31), qc.flag_form(rng, plain=0.4), af.draw_aseed(rng)
 
 
 # ---------------------------------------------------------------- call history on the same objects
@@ -402,7 +513,7 @@ def gen_history(rng):
     steps = [st(kind, n1, P1, S1), st(kind, n1, P1, S2), st(kind, n1, P2, S2), st(kind, n1, P2, mk(n1, B2)),
              st(k2, n2, gen_params(rng, k2, n2, h, a2, sc()), mk(n2, B)), st(k2, n3, gen_params(rng, k2, n3, h, a2, sc()), mk(n3, B)),
              st(kind, n1, P1, S1)]
-    return {"hist": True, "steps": steps, "fseed": rng.randrange(2 ** 31), "gpuf": qc.flag_form(rng, plain=0.4)}
+    return {"hist": True, "steps": steps, "fseed": rng.randrange(2 ** 31), "gpuf": qc.flag_form(rng, plain=0.4), "aseed": af.draw_aseed(rng)}
 
 
 def history_case(ctx, case):
@@ -415,6 +526,7 @@ def history_case(ctx, case):
     cmax = max(s["n"] for s in steps) + 1
     fl = qc.Flags(case.get("fseed"))   # the objects handed as `absolute` / `periodic_bcs` (constructor arguments and reassigned attributes)
     gpuf = case.get("gpuf")
+    A = af.Args(case.get("aseed"))    # constructor sizes and every distance `c` (constructor argument and reassigned attribute)
     ctx.current_case = case
     objs, fdesc = {}, {}
     for nm, cls in (("sigmaX", SigmaX), ("sigmaY", SigmaY), ("sigmaZ", SigmaZ)):
@@ -425,7 +537,7 @@ def history_case(ctx, case):
         fdesc[("nb", per)] = fl(per)[1]
     for c in range(1, cmax + 1):
         for per in (False, True):
-            obs, _ = make_neighbour(NeighbourInteraction, fl, per, c, form=fdesc[("nb", per)]["form"])
+            obs, _ = make_neighbour(NeighbourInteraction, fl, per, c, form=fdesc[("nb", per)]["form"], A=A)
             objs[("nb", per, c)] = (obs, lambda per=per, c=c: NeighbourInteraction(periodic_bcs=per, c=c))
     flags_req = {nm: [_fd(fdesc[(nm, False)]), _fd(fdesc[(nm, True)])] for nm in ("sigmaX", "sigmaY", "sigmaZ")}
     flags_req["periodic"] = [_fd(fdesc[("nb", False)]), _fd(fdesc[("nb", True)])]
@@ -446,7 +558,10 @@ def history_case(ctx, case):
                     qc.set_rbm(st.rbm_ph, ph, inplace=True)
             ctx.count("history:state_reused_in_place")
         else:
-            st = states[key] = build_state(kind, n, h, a, am, ph, gpuf)
+            st = build_state(kind, n, h, a, am, ph, gpuf, A=A)
+            if not af.check_sizes(ctx, st, want_sizes(kind, n, h, a), {**case, "step": i}, A, f"{kind}/ctor-sizes", CTOR_THEOREM):
+                return
+            states[key] = st
         if (B, n) in tensors:
             t = tensors[(B, n)]
             t.copy_(torch.tensor(samples, dtype=torch.double).reshape(B, n))
@@ -467,16 +582,20 @@ def history_case(ctx, case):
             mut["sx"] = SigmaX(absolute=False)
         c_now = 1 + (i * 2 + 1) % cmax
         per_now = (i % 3 != 1)
-        mut["nb"].c = c_now
+        mut["nb"].c = A.i(c_now, C_FORMS)             # reassigned as whatever integer object the argument-form stream yields
         mut["nb"].periodic_bcs = fl(per_now)[0]       # reassigned as whatever object the flag stream yields
         mut["sx"].absolute = fl(i % 2 == 1)[0]
-        if model is not None:
+        if model is not None and c_now > n:
+            impl_apply(mut["nb"], st, t)   # a distance no chain of this step's length has: applied, no verdict (outside c = 1..n)
+            ctx.count("history: neighbour c outside 1..n (informational)")
+        if model is not None and c_now <= n:
             vals_m = impl_apply(mut["nb"], st, t)[0]
             mk_ = "periodic" if per_now else "open"
             cmp_vals(ctx, f"history: NeighbourInteraction with attributes reassigned to (periodic={per_now}, c={c_now})", "property", vals_m,
                      model[mk_][cs.index(c_now)], {**sub, "observable": "neighbour(mutable)", "c": c_now, "periodic": per_now,
-                                                   "periodic_bcs_object": repr(mut["nb"].periodic_bcs)}, THEOREMS[mk_] + "; C08_flag_periodic, C08_flag_any_form",
+                                                   "periodic_bcs_object": repr(mut["nb"].periodic_bcs), "c_object": f"{type(mut['nb'].c).__name__}:{mut['nb'].c!r}"}, THEOREMS[mk_] + "; C08_flag_periodic, C08_flag_any_form",
                      f"{kind}/neighbour/{mk_}/attributes-reassigned")
+        if model is not None:
             vals_x = impl_apply(mut["sx"], st, t)[0]
             cmp_vals(ctx, f"history: SigmaX with absolute reassigned to {i % 2 == 1}", "property", vals_x,
                      model["sigmaX"]["vals" + ("_abs" if i % 2 == 1 else "")], {**sub, "observable": "sigmaX(mutable)", "absolute_object": repr(mut["sx"].absolute)},
@@ -487,6 +606,9 @@ def history_case(ctx, case):
                 continue
             obj, mkfresh = pair_
             vals, shape_ok, unchanged = impl_apply(obj, st, t)
+            if key2[0] == "nb" and not 1 <= key2[2] <= n:
+                ctx.count("history: neighbour c outside 1..n (informational)")   # applied (the object lives on to the next step), no verdict
+                continue
             nm = key2[0] if key2[0] != "nb" else f"neighbour(periodic={key2[1]},c={key2[2]})"
             sub2 = {**sub, "observable": nm, "absolute": key2[1] if key2[0] != "nb" else None}
             ctx.oracle("history: apply leaves the sample tensor unchanged (bytes)", bool(unchanged), sub2, sig=f"{kind}/{key2[0]}/no-mutation",
@@ -503,6 +625,7 @@ def history_case(ctx, case):
             fv = impl_apply(mkfresh(), fresh_st, torch.tensor(samples, dtype=torch.double).reshape(B, n))[0]
             ctx.oracle("history: the same observable object evaluated again == a fresh one on fresh copies of state and samples",
                        same_values(vals, fv), sub2, detail={"reused": vals, "fresh": fv}, sig=f"{kind}/{key2[0]}/history-oracle")
+        A.count_into(ctx)
 
 
 def run(ctx):
@@ -527,7 +650,8 @@ def search(ctx):
 
 def replay(ctx, case):
     if case.get("hist"):
-        history_case(ctx, {"hist": True, "steps": case["steps"], "fseed": case.get("fseed"), "gpuf": case.get("gpuf")})
+        history_case(ctx, {"hist": True, "steps": case["steps"], "fseed": case.get("fseed"), "gpuf": case.get("gpuf"),
+                           **({"aseed": case["aseed"]} if case.get("aseed") is not None else {})})
         return
     one_case(ctx, case["kind"], case["n"], case["h"], case["a"], case["scale"], case["am"], case["ph"], case["samples"], case["full"],
-             case.get("layout", "contig"), case.get("fseed"), case.get("gpuf"))
+             case.get("layout", "contig"), case.get("fseed"), case.get("gpuf"), case.get("aseed"))
